@@ -1065,7 +1065,33 @@ sexp sexp_length_op (sexp ctx, sexp self, sexp_sint_t n, sexp ls1) {
   return sexp_make_fixnum(res + (sexp_pairp(ls2) ? 1 : 0));
 }
 
-sexp sexp_equalp_bound (sexp ctx, sexp self, sexp_sint_t n, sexp a, sexp b, sexp depth, sexp bound) {
+/* pairs of objects found too deep to compare on the C stack, which the */
+/* caller has yet to compare */
+struct sexp_equalp_todo {
+  sexp *data;
+  sexp_uint_t len, size;
+};
+
+static int sexp_equalp_defer (struct sexp_equalp_todo *todo, sexp a, sexp b) {
+  sexp *tmp;
+  if (todo->len >= 2 * SEXP_DEFAULT_EQUAL_DEFERRED)
+    return 0;
+  if (todo->len + 2 > todo->size) {
+    tmp = (sexp*) sexp_malloc((todo->size + 64) * 2 * sizeof(sexp));
+    if (!tmp) return 0;
+    if (todo->data) {
+      memcpy(tmp, todo->data, todo->len * sizeof(sexp));
+      sexp_free(todo->data);
+    }
+    todo->data = tmp;
+    todo->size = (todo->size + 64) * 2;
+  }
+  todo->data[todo->len++] = a;
+  todo->data[todo->len++] = b;
+  return 1;
+}
+
+static sexp sexp_equalp_rec (sexp ctx, sexp self, sexp_sint_t n, sexp a, sexp b, sexp depth, sexp bound, struct sexp_equalp_todo *todo) {
   sexp_uint_t left_size, right_size;
   sexp_sint_t i, len;
   sexp t, *p, *q, depth2;
@@ -1095,8 +1121,12 @@ sexp sexp_equalp_bound (sexp ctx, sexp self, sexp_sint_t n, sexp a, sexp b, sexp
       ? bound : SEXP_FALSE;
 #endif
   /* check limits */
-  if (sexp_unbox_fixnum(bound) < 0 || sexp_unbox_fixnum(depth) < 0)
+  if (sexp_unbox_fixnum(bound) < 0)
     return bound;
+  /* too deep: a and b are not known to be equal, leave them to the */
+  /* caller or report the limit as exceeded */
+  if (sexp_unbox_fixnum(depth) < 0)
+    return (todo && sexp_equalp_defer(todo, a, b)) ? bound : SEXP_NEG_ONE;
   depth2 = sexp_fx_sub(depth, SEXP_ONE);
   bound = sexp_fx_sub(bound, SEXP_ONE);
   t = sexp_object_type(ctx, a);
@@ -1133,7 +1163,7 @@ sexp sexp_equalp_bound (sexp ctx, sexp self, sexp_sint_t n, sexp a, sexp b, sexp
       }
     }
     for (i=0; i<len-1; i++) {
-      bound = sexp_equalp_bound(ctx, self, n, p[i], q[i], depth2, bound);
+      bound = sexp_equalp_rec(ctx, self, n, p[i], q[i], depth2, bound, todo);
       if (sexp_not(bound)) return SEXP_FALSE;
     }
     /* tail-recurse on the last value (same depth) */
@@ -1142,11 +1172,25 @@ sexp sexp_equalp_bound (sexp ctx, sexp self, sexp_sint_t n, sexp a, sexp b, sexp
   return bound;
 }
 
+sexp sexp_equalp_bound (sexp ctx, sexp self, sexp_sint_t n, sexp a, sexp b, sexp depth, sexp bound) {
+  return sexp_equalp_rec(ctx, self, n, a, b, depth, bound, NULL);
+}
+
 sexp sexp_equalp_op (sexp ctx, sexp self, sexp_sint_t n, sexp a, sexp b) {
-  return sexp_make_boolean(
-    sexp_truep(sexp_equalp_bound(ctx, self, n, a, b,
-                                 sexp_make_fixnum(SEXP_DEFAULT_EQUAL_DEPTH),
-                                 sexp_make_fixnum(SEXP_DEFAULT_EQUAL_BOUND))));
+  struct sexp_equalp_todo todo = {NULL, 0, 0};
+  sexp res = sexp_make_fixnum(SEXP_DEFAULT_EQUAL_BOUND);
+  /* compare to a limited depth at a time, until a difference is found, */
+  /* nothing is left to compare or the bound is exceeded */
+  for (;;) {
+    res = sexp_equalp_rec(ctx, self, n, a, b,
+                          sexp_make_fixnum(SEXP_DEFAULT_EQUAL_DEPTH), res, &todo);
+    if (sexp_not(res) || sexp_unbox_fixnum(res) < 0 || todo.len == 0)
+      break;
+    b = todo.data[--todo.len];
+    a = todo.data[--todo.len];
+  }
+  if (todo.data) sexp_free(todo.data);
+  return sexp_make_boolean(sexp_truep(res));
 }
 
 /********************* strings, symbols, vectors **********************/
